@@ -238,6 +238,10 @@ class ConformationContainer:
             # re-calculating the total pKa values
             for group in self.groups:
                 group.calculate_total_pka()
+        elif self.parameters.shared_determinants:
+            # sharing has changed determinants of the coupled groups
+            for group in self.groups:
+                group.calculate_total_pka()
 
     def coupling_effects(self):
         """Penalize groups based on coupling effects.
